@@ -91,7 +91,10 @@ def body_patch(c, ctx):
     # the quadrature must integrate the element's own mass matrix (also on facets) whatever the degree of the solution
     io = min(2 * max(e.maxdeg if problem != 'elasticity' else e.elem.maxdeg, 1) + 2, 8 if kind == 'tet' else 14)
     basis = CellBasis(m, e, intorder=io)
-    sig = dict(problem=problem, elem=c['elem']['cls'])
+    elab = c['elem']['cls'] + (f"(p{'>=3' if c['elem']['p'] >= 3 else '<3'})" if 'p' in c['elem'] else '')
+    sig = dict(problem=problem, elem=elab)
+    if c['elem']['cls'] == 'ElementQuadP':
+        sig['shifted_cells'] = 'local-order' in desc['feat'] or 'split' in desc['feat']
     bf = m.boundary_facets()
     if c['allD']:
         Dfac = bf
